@@ -243,6 +243,17 @@ var propSpecs = []PropSpec{
 				cfg.Preempt = 2
 			}
 		}},
+	{ID: "C11", Pkgs: []string{"srv"},
+		BoundsQ:     "Orchestrator: 1-2 services (the first in state not-started/running/finished with outcome ok/error/panic/blocks, the second not started with ok/error), each added before or after the orchestrator started; Group: 1-2 members with 4 outcomes; WorkerPool/HandlerWorkerPool: pool size 1-2, 1-2 jobs (ok/error/panic) added before or after start; Cleanup: 1-2 cleanup functions (ok/error/panic); non-preemptive schedules (preemption bound 0: switches only where a goroutine blocks or ends)",
+		BoundsT:     "Cleanup at preemption bound 1 (the other entries do not complete at bound 1 within the budget: Group and WorkerPool ran past 15 min, Orchestrator past 2M paths)",
+		Outside:     "jobs racing the shutdown itself (every Add happens before Close is called); timeouts (Cleanup timeout 0); queue limits; more services/jobs",
+		Assumptions: commonAssumptions,
+		Tune: func(cfg *Config, tier, entry string) {
+			cfg.Preempt = 0
+			if tier == "thorough" && entry == "VC11_Cleanup" {
+				cfg.Preempt = 1
+			}
+		}},
 	{ID: "TV", Pkgs: []string{"internal"}, BoundsQ: "translator validation corpus"},
 }
 
